@@ -277,15 +277,23 @@ def part_pattern_sequences(res, rng, n):
         tracks, lines = rng.randint(1, 6), rng.randint(1, 8)
         ncell = tracks * lines
         model = [bytes(8)] * ncell
-        start = rng.choice(("fresh", "loaded", "loaded-embedded"))
+        start = rng.choice(("fresh", "loaded", "loaded-embedded", "loaded-legacy-stamp"))
         holder = None
-        if start in ("loaded", "loaded-embedded"):
+        if start in ("loaded", "loaded-embedded", "loaded-legacy-stamp"):
             img = [rcell() for _ in range(ncell)]
             q0 = api.Pattern(tracks=tracks, lines=lines)
             q0.raw_data = b"".join(img)
             p0 = api.Project()
             p0.attach_pattern(q0)
-            if start == "loaded":
+            if start == "loaded-legacy-stamp":
+                # the file is stamped below 1.9.5.0: what is LOADED has one-byte module numbers (documented); whatever is put into
+                # the pattern afterwards is taken as it is
+                p0.sunvox_version = (1, 9, 4, 0)
+                proj = api.read_sunvox_file(__import__("io").BytesIO(p0.read()))
+                pat = proj.patterns[0]
+                img = [c[:2] + bytes([c[2], 0]) + c[4:] for c in img]
+                proj = None             # (its later saves carry the current stamp; only raw_data is judged for this start)
+            elif start == "loaded":
                 proj = api.read_sunvox_file(__import__("io").BytesIO(p0.read()))
                 pat = proj.patterns[0]
             else:
@@ -306,7 +314,9 @@ def part_pattern_sequences(res, rng, n):
             history.append(op)
             if op == "assign":
                 model = image(tracks, lines)
-                pat.raw_data = b"".join(model)
+                buf = b"".join(model)
+                # an image is a buffer of bytes: bytes, bytearray or a memoryview over either
+                pat.raw_data = rng.choice((lambda b: b, bytearray, memoryview, lambda b: memoryview(bytearray(b))))(buf)
             elif op == "assign-long":
                 # an image with more bytes than lines * tracks cells: the cells are the first lines * tracks, the rest is not
                 # part of the pattern (now or later)
@@ -319,7 +329,7 @@ def part_pattern_sequences(res, rng, n):
                 i = rng.randrange(ncell)
                 c = rcell()
                 n_ = pat.data[i // tracks][i % tracks]
-                n_.raw_data = c
+                n_.raw_data = c if rng.random() < 0.6 else bytearray(c)
                 model[i] = c
             elif op == "bulk":
                 c = rcell()
